@@ -5,6 +5,45 @@ here = os.path.dirname(os.path.dirname(os.path.abspath(__file__)))
 
 # id -> (technique, level text, level note, design ref)
 CHECKS = {
+    "C01": (
+        "Hypothesis-generated annotation files rendered from an independent text model; round-trip / inverse oracle + reopen + re-import metamorphic relation",
+        "Files of 1-12 lines in every grammar dialect are rendered from structured records; after create_db the rows must equal the records "
+        "(columns, extras always; ordered attributes and byte-identical printing whenever the dialect-observation model says the inspected "
+        "window recovers the dialect), also after close/reopen and after re-importing the printed lines. Sampling: thousands of files per run.",
+        "Text model/renderer and the dialect-observation model (gfv/textmodel.py) are trusted; domain restrictions of DESIGN section 3.",
+        "DESIGN.md section 4 C01, Appendix A.2",
+    ),
+    "C07": (
+        "Hypothesis-generated single lines from the text model; inverse oracle (parse == record, print == line) + metamorphic tab/space relation",
+        "Every combination of style, separator, trailing semicolon, repeated/comma lists, flags, escapes, extras and '.' coordinates is drawn; "
+        "feature_from_line must give the record back and print the identical bytes; a space-rendered nine-column line must parse equal under strict=False.",
+        "Renderer (gfv/textmodel.py) trusted; value-domain restrictions of DESIGN section 3.",
+        "DESIGN.md section 4 C07",
+    ),
+    "C08": (
+        "Hypothesis round trip under supplied dialects + exhaustive enumeration of short attribute strings (totality) + random strings",
+        "Mappings over arbitrary Unicode incl. tab/newline/%/;/=/&/,/controls are printed and re-parsed under every gff3-style dialect dictionary "
+        "(and GTF-style ones over their escape-free value domain); every string up to length 5 (quick) / 7 (thorough) over the structural alphabet "
+        "is parsed under the inferred and five supplied dialects and must yield str -> [str] without raising.",
+        "Exhaustive only up to the stated length over 8 symbols; sampling beyond.",
+        "DESIGN.md section 4 C08",
+    ),
+    "C09": (
+        "Hypothesis-generated consistent files, two-valued mixtures and supplied dialects against a reference vote model",
+        "Consistent files must report exactly their dialect (all entries, first-seen key order) through DataIterator, create_db, a reopened "
+        "FeatureDB and helpers.infer_dialect, and route to the GFF3 or GTF importer; mixtures must resolve to the attribute-count-weighted "
+        "majority with ties to the first seen; a supplied dialect is reported verbatim and drives parsing.",
+        "Vote model (gfv/textmodel.py vote/observe) trusted; mixtures whose winner differs between windows of checklines and checklines+1 lines are not asserted.",
+        "DESIGN.md section 4 C09, Appendix A.2",
+    ),
+    "C14": (
+        "Hypothesis-generated interleavings of directive/comment/blank/feature/FASTA lines against a line-by-line reference reading",
+        "Documents with directives below and above the inspection window, look-alike lines and FASTA tails are imported from a path and from a "
+        "string, with inferred and supplied dialect; DataIterator.directives, db.directives and the reopened database must list exactly the "
+        "'##' lines before the FASTA marker, in order, and exactly the feature lines before it must be stored.",
+        "Reference reading in gfv/props/c14.py expected(); blank means empty line.",
+        "DESIGN.md section 4 C14",
+    ),
     "C12": (
         "exhaustive enumeration of the bin-boundary grid + Hypothesis random pairs against an independent arithmetic oracle",
         "Every pair of coordinates within +-2 of a bin edge (quick: edges that are multiples of 2^20 plus all pairs inside the "
